@@ -196,7 +196,10 @@ func VpKingAttacked(b *Board, c Color) bool {
 func vpOneBit(bb BitBoard) bool { return bb != 0 && bb&(bb-1) == 0 }
 
 // VpValid is the validity predicate of the properties' quantifier (RI is separate).
-func VpValid(b *Board) bool {
+func VpValid(b *Board) bool { return VpValidCore(b) && VpCountsOK(b) }
+
+// VpValidCore is VpValid without the piece-count clause.
+func VpValidCore(b *Board) bool {
 	ok := true
 	// exactly one king per side
 	if !vpOneBit(b.Pieces[King]&b.Colors[White]) || !vpOneBit(b.Pieces[King]&b.Colors[Black]) {
@@ -229,6 +232,35 @@ func VpValid(b *Board) bool {
 	}
 	if b.FiftyCnt < 0 {
 		ok = false
+	}
+	return ok
+}
+
+func vpCount(bb BitBoard) int {
+	n := 0
+	for sq := 0; sq < 64; sq++ {
+		if vpBit(bb, sq) {
+			n++
+		}
+	}
+	return n
+}
+
+// VpCountsOK: for each side, pawns plus the pieces that can only be promoted pawns number at most eight.
+func VpCountsOK(b *Board) bool {
+	ok := true
+	for c := White; c <= Black; c++ {
+		extra := func(p Piece, orig int) int {
+			n := vpCount(b.Pieces[p] & b.Colors[c])
+			if n > orig {
+				return n - orig
+			}
+			return 0
+		}
+		promoted := extra(Knight, 2) + extra(Bishop, 2) + extra(Rook, 2) + extra(Queen, 1)
+		if vpCount(b.Pieces[Pawn]&b.Colors[c])+promoted > 8 {
+			ok = false
+		}
 	}
 	return ok
 }
